@@ -292,7 +292,7 @@ class Result:
 # opts kinds out with NO_VARY = {"kind", ...} (e.g. kinds whose other parameters depend on the amplitude).
 
 AMPS = [2.0 ** -30, 2.0 ** 17, 2.0 ** -40, 2.0 ** 23]
-DEGEN = ["imag", "zends", "nyq", "dc"]
+DEGEN = ["imag", "zends", "nyq", "dc", "zstuff"]
 
 # how many times the thorough tier runs each property's generator (chosen so that a property takes a few minutes)
 THOROUGH_ROUNDS = {"C01": 10, "C02": 6, "C03": 10, "C04": 10, "C05": 15, "C06": 4, "C07": 1, "C08": 2, "C09": 6, "C10": 2,
@@ -342,6 +342,12 @@ def vary(mod, cases, tier):
                 q["x"] = xx                               # exact zeros at both ends
             elif d == "nyq":
                 q["x"] = x + 4 * np.max(np.abs(x)) * (-1.0) ** n     # dominant alternating-sign (Nyquist) tone
+            elif d == "zstuff":
+                if x.size < 8:
+                    continue
+                xx = x.copy()
+                xx[1::2] = 0                              # zero-inserted (upsampled) record: exact zeros in intermediate quantities
+                q["x"] = xx
             elif d == "dc":
                 q["x"] = x + 4 * np.max(np.abs(x))        # dominant tone exactly at DC
             q["variant"] = "degen:" + d
@@ -388,7 +394,7 @@ def materialize(params):
 # A failure is reported as the kind "__seq__" whose params hold the two (kind, params) steps: that is the replay.
 
 ALIAS_EVERY = 5
-ALIAS_RING = 3
+ALIAS_RING = 24
 
 
 def _float_arrays(out):
@@ -456,6 +462,21 @@ class AliasProbe:
         """run the implementation of one case under the protocol; returns the COPIES of its outputs (or raises what it raises)"""
         spec = self.kinds[kind]
         out = spec["impl"](params)
+        # a result must not be (a view of) an array an earlier call already handed to the caller, who has since overwritten it
+        for (k0, p0, arrs) in self.ring:
+            hit = False
+            for b in arrs:
+                for a in _float_arrays(out):
+                    try:
+                        if np.shares_memory(a, b) and np.any(np.isnan(a.real) if a.dtype.kind == "c" else np.isnan(a)):
+                            hit = True
+                    except Exception:
+                        pass
+            if hit:
+                self.failures.append({"kind": "__seq__", "params": {"steps": [[k0, p0], [kind, params0]], "what": "handed-out"},
+                                      "what": "a call (%s) returned an array that an earlier call (%s) had already returned and the caller "
+                                              "had overwritten in place: results are views of a cache" % (kind, k0), "source": "oracle"})
+                break
         copies, poisoned = _poison(out, params)
         # earlier results must still be as the caller left them
         for (k0, p0, arrs) in self.ring:
@@ -741,7 +762,7 @@ def main(argv):
             known_hits[ke[0]["what"]] = known_hits.get(ke[0]["what"], 0) + 1
         else:
             unlisted.append(f)
-    for f in sorted(unlisted, key=size_of):
+    for f in sorted(unlisted, key=lambda f_: (0 if f_["kind"] == "__seq__" else 1, size_of(f_))):
         cls = (f["kind"], re.sub(r"[-+]?\d+\.?\d*(e[-+]?\d+)?", "#", f["what"])[:80])
         if cls in seen_classes:
             continue
